@@ -280,7 +280,8 @@ Definition process_pre (cfg : srvcfg) (c : conn) (t : msg) (sc : script) : conn 
       | None => (c, rf, PReject e_unknownfid, [])
       | Some fr =>
         if has_bit (f_type fr) c_QTAUTH then
-          if s_auth cfg then (c, rf, PAuthOp, [EvAuth t fid]) else (c, rf, PReject e_notimpl, [])
+          if count_too_large (c_msize c) (len data) then (c, rf, PReject e_toolarge, [])
+          else if s_auth cfg then (c, rf, PAuthOp, [EvAuth t fid]) else (c, rf, PReject e_notimpl, [])
         else if negb (f_opened fr) || has_bit (f_type fr) c_QTDIR
                 || (negb (N.land (f_omode fr) 3 =? c_OWRITE) && negb (N.land (f_omode fr) 3 =? c_ORDWR))
         then (c, rf, PReject e_baduse, [])
